@@ -21,7 +21,7 @@
 (* Tallies: 11 mutating operations judged, 12 queries judged (eval, query, *)
 (* vnext), 13 derive-after-integrate pairs, 14 add/sub.                    *)
 (***************************************************************************)
-EXTENDS TraceBase, BigPoly
+EXTENDS TraceBase, PwForms
 
 \* Which judgments this run makes.  A session exercises many mechanisms; each property's check judges only the
 \* clauses that property states ("scalar": C15, "derive": C08, "integrate": C11, "combine": C13, "eval": C02,
@@ -37,15 +37,11 @@ L == INSTANCE Library WITH Zero <- BRZero, One <- BROne, Add <- BRAdd, Sub <- BR
                            Neg <- BRNeg, Abs <- BRAbs, Leq <- BRLe, FromInt <- BR, MaxDeg <- 7,
                            lastop <- [op |-> "none"], before <- [ends |-> << >>, pieces |-> << >>]
 P == INSTANCE Piecewise
-LF == INSTANCE LogForms WITH Zero <- BRZero, One <- BROne, Add <- BRAdd, Sub <- BRSub, Mul <- BRMul, Div <- BRDiv,
-                              Neg <- BRNeg, Abs <- BRAbs, Leq <- BRLe, FromInt <- BR, Ln <- LnApprox, R5 <- ExpTail
-
 TraceInit ==
     /\ TallyInit /\ l = 1
     /\ kind = "none" /\ ends = << >> /\ pieces = << >> /\ handle = "none" /\ off = 0 /\ last = PosZero
     /\ vprev = 0 /\ vlast = << >> /\ pre = [op |-> "none"]
 
-Finite(bs) == \A i \in 1..Len(bs) : IsFinite(bs[i])
 FiniteT(t) == \A j \in 1..Len(t) : Finite(t[j])
 ValsT(t) == [j \in 1..Len(t) |-> Vals(t[j])]
 
@@ -120,21 +116,44 @@ IntegrateOK(kx, ky) ==
               /\ \A i \in 1..Len(old[j]) : IsFlOf(Ev.pieces[j][i + 1], BRDiv(old[j][i], BR(i)))
         /\ BRLe(BRAbs(BRSub(B!Eval(new[1], kx), ky)), tol(1))
         /\ \A j \in 1..(n - 1) : BRLe(BRAbs(BRSub(B!Eval(new[j], E[j]), B!Eval(new[j + 1], E[j]))), tol(j + 1))
+\* integral(k0) of a log-polynomial function: the pieces become IntOfLog forms (or the quartic form);
+\* lanes against the exact recurrence, constants by the C11 contract, as in Trace_PwInt
+LogIntegrateOK(kx, ky) ==
+    LET old == ValsT(pieces)  new == ValsT(Ev.pieces)  E == Vals(ends)  n == Len(old)
+        quartic == Len(old[1]) = 5
+        LE == [j \in 1..n |-> LnApprox(E[j])]
+        lkx == LnApprox(kx)
+        step == [j \in 1..n |-> IF j = 1 THEN BRAdd(BRAbs(ky), BRAdd(PieceMag(TRUE, old[1], kx, lkx), PieceMag(TRUE, old[1], E[1], LE[1])))
+                                ELSE BRAdd(PieceMag(TRUE, old[j], E[j - 1], LE[j - 1]), PieceMag(TRUE, old[j], E[j], LE[j]))]
+        cum == AccFrom(step, 1, << >>)
+    IN  /\ Len(new) = n
+        /\ \A j \in 1..n : LanesOK(TRUE, old[j], Ev.pieces[j])
+        /\ Near(FormVal(TRUE, quartic, new[1], kx, lkx), ky, cum[1], 1)
+        /\ \A j \in 1..(n - 1) :
+              Near(FormVal(TRUE, quartic, new[j], E[j], LE[j]), FormVal(TRUE, quartic, new[j + 1], E[j], LE[j]), cum[j + 1], j + 1)
+PosAll(bs) == \A i \in 1..Len(bs) : IsFinite(bs[i]) /\ ~SignBit(bs[i]) /\ ~IsZero(bs[i])
+
 TraceIntegrate ==
     /\ IsOp("integrate")
     /\ Judge(Free, "harness: mutation while borrowed")
     /\ ends' = Ev.ends /\ pieces' = Ev.pieces
+    /\ kind' = IF kind = "log" THEN Ev.kind ELSE kind
     /\ pre' = [op |-> "integrate", ends |-> ends, pieces |-> pieces]
-    /\ Keep(<< kind, handle, off, last, vprev, vlast >>)
-    /\ IF ~(FiniteT(pieces) /\ FiniteT(Ev.pieces) /\ Finite(ends) /\ IsFinite(Ev.kx) /\ IsFinite(Ev.ky)
-            /\ InRange(Val(Ev.ky))
-            /\ \A j \in 1..Len(pieces) :
-                  /\ TermsInScope(B!Indef(Vals(pieces[j])), Val(Ev.kx), 9)
-                  /\ TermsInScope(B!Indef(Vals(pieces[j])), Val(ends[j]), 9)
-                  /\ j > 1 => TermsInScope(B!Indef(Vals(pieces[j])), Val(ends[j - 1]), 9)) THEN TRUE
-       ELSE /\ Tally(11, TRUE)
-            /\ JudgeIn("integrate", Ev.ends = ends, "breakpoints changed")
-            /\ JudgeIn("integrate", IntegrateOK(Val(Ev.kx), Val(Ev.ky)), "piecewise integral")
+    /\ Keep(<< handle, off, last, vprev, vlast >>)
+    /\ IF kind = "log"
+       THEN IF ~(FiniteT(pieces) /\ FiniteT(Ev.pieces) /\ PosAll(ends) /\ PosAll(<< Ev.kx >>) /\ IsFinite(Ev.ky) /\ InRange(Val(Ev.ky))) THEN TRUE
+            ELSE /\ Tally(11, TRUE)
+                 /\ JudgeIn("integrate", Ev.ends = ends /\ Ev.kind = (IF Len(pieces[1]) = 5 THEN "q" ELSE "intoflog"), "breakpoints or form changed")
+                 /\ JudgeIn("integrate", LogIntegrateOK(Val(Ev.kx), Val(Ev.ky)), "piecewise integral of a log-polynomial")
+       ELSE IF ~(FiniteT(pieces) /\ FiniteT(Ev.pieces) /\ Finite(ends) /\ IsFinite(Ev.kx) /\ IsFinite(Ev.ky)
+                 /\ InRange(Val(Ev.ky))
+                 /\ \A j \in 1..Len(pieces) :
+                       /\ TermsInScope(B!Indef(Vals(pieces[j])), Val(Ev.kx), 9)
+                       /\ TermsInScope(B!Indef(Vals(pieces[j])), Val(ends[j]), 9)
+                       /\ j > 1 => TermsInScope(B!Indef(Vals(pieces[j])), Val(ends[j - 1]), 9)) THEN TRUE
+            ELSE /\ Tally(11, TRUE)
+                 /\ JudgeIn("integrate", Ev.ends = ends, "breakpoints changed")
+                 /\ JudgeIn("integrate", IntegrateOK(Val(Ev.kx), Val(Ev.ky)), "piecewise integral")
 
 \* Library!MergeFrom with breakpoints as bit patterns (IEEE comparisons) and pieces as exact values
 RECURSIVE MergeBitsFrom(_, _, _, _, _, _)
@@ -170,19 +189,32 @@ TraceSub == Combine("sub", TRUE)
 
 \* ---------------------------------------------------------------- queries
 \* exact value of piece j of the current object at x, and the magnitude that scales its rounding bound
+QuarticValAt(r, x) ==
+    LET xx == BRNeg(LnApprox(x)) IN
+    BRAdd(r[1], BRMul(x, BRAdd(B!Eval(<< BRZero, r[2], r[3], r[4], r[5] >>, xx), BRMul(r[6], BRMul(B!Pow(xx, 5), ExpTail(xx))))))
+QuarticMagAt(r, x) ==
+    LET xx == BRNeg(LnApprox(x)) IN
+    BRAdd(BRAbs(r[1]), BRMul(x, BRAdd(B!AbsEval(<< BRZero, r[2], r[3], r[4], r[5] >>, xx),
+                                       BRMul(BRAbs(r[6]), BRAbs(BRMul(B!Pow(xx, 5), ExpTail(xx)))))))
 PieceVal(j, x) ==
-    IF kind = "poly" THEN B!Eval(Vals(pieces[j]), x)
-    ELSE LET r == Vals(pieces[j])  xx == BRNeg(LnApprox(x)) IN
-         BRAdd(r[1], BRMul(x, BRAdd(B!Eval(<< BRZero, r[2], r[3], r[4], r[5] >>, xx), BRMul(r[6], BRMul(B!Pow(xx, 5), ExpTail(xx))))))
+    LET r == Vals(pieces[j]) IN
+    CASE kind = "poly" -> B!Eval(r, x)
+      [] kind = "q" -> QuarticValAt(r, x)
+      [] kind = "log" -> B!Eval(r, LnApprox(x))                                   \* Log(p)(v) = p(ln v)
+      [] kind = "intoflog" -> BRAdd(r[1], BRMul(x, B!Eval(Rest(r), LnApprox(x))))   \* k + v q(ln v)
 PieceTol(j, x) ==
-    IF kind = "poly" THEN EvalBound(Vals(pieces[j]), BRAbs(x))
-    ELSE LET r == Vals(pieces[j])  xx == BRNeg(LnApprox(x)) IN
-         BRMul(BRFrac(1, 1000000), BRMul(BRFrac(1, 1000000),
-               BRAdd(BRAbs(r[1]), BRMul(x, BRAdd(B!AbsEval(<< BRZero, r[2], r[3], r[4], r[5] >>, xx),
-                                                  BRMul(BRAbs(r[6]), BRAbs(BRMul(B!Pow(xx, 5), ExpTail(xx)))))))))
+    LET r == Vals(pieces[j]) IN
+    CASE kind = "poly" -> EvalBound(r, BRAbs(x))
+      [] kind = "q" -> BRMul(BRFrac(1, 1000000), BRMul(BRFrac(1, 1000000), QuarticMagAt(r, x)))       \* C10: 1e-12 Mag
+      [] kind = "log" ->        \* C01, Log clause: the bound at |L| + ulp plus the propagated ulp of ln
+            LET lnx == LnApprox(x)  ulpL == Ulp(Fl(lnx))  A == BRAdd(BRAbs(lnx), BRAdd(ulpL, ErrAbs)) IN
+            BRAdd(EvalBound(r, A), BRMul(BRAdd(ulpL, BRMul(BR(2), ErrAbs)), B!Eval(B!AbsSeq(B!Deriv(r)), A)))
+      [] kind = "intoflog" ->   \* C09: KAPPA 2^-53 (|k| + v sum |q_i||ln v|^i)
+            BRMul(BRAdd(BRMul(BR(512), U), Slack), BRAdd(BRAbs(r[1]), BRMul(x, B!AbsEval(Rest(r), BRAbs(LnApprox(x))))))
 QueryInScope(j, x) ==
     /\ IsFinite(x) /\ Finite(pieces[j])
-    /\ IF kind = "poly" THEN TermsInScope(Vals(pieces[j]), Val(x), 8) ELSE (~SignBit(x) /\ ~IsZero(x) /\ BRLt(BRPow2(-900), Val(x)) /\ BRLt(Val(x), BRPow2(60)))
+    /\ IF kind = "poly" THEN TermsInScope(Vals(pieces[j]), Val(x), 8)
+       ELSE (~SignBit(x) /\ ~IsZero(x) /\ BRLt(BRPow2(-900), Val(x)) /\ BRLt(Val(x), BRPow2(60)))
 ValueOK(x, y) ==
     LET j == P!SelectScan(ends, x) IN
     QueryInScope(j, x) => (Tally(12, TRUE) /\ IsFinite(y) /\ BRLe(BRAbs(BRSub(Val(y), PieceVal(j, Val(x)))), PieceTol(j, Val(x))))
